@@ -178,6 +178,29 @@ def run_case(case, mon):
             j2 = s2.find("),", i2)
             outs.append(("function-argument", s2[i2:j2] if i2 >= 0 and j2 > i2 else s2))
             mon.count("embedded_renders", 2)
+            if mon.evaluations % 11 == 0:
+                # ... and as a value of every statement kind: the literal inside the statement is the bare literal of that dialect
+                bare = iv.get_sql(ctx)
+                Qd = reg[dname]
+                stmts = {
+                    "insert-value": lambda: Qd.into(t).columns("id", "ttl").insert(1, iv),
+                    "update-set": lambda: Qd.update(t).set("ttl", iv).where(t.ts > iv),
+                    "upsert-do-update": lambda: Qd.into(t).insert(1, 2).on_conflict("id").do_update("ttl", iv),
+                    "upsert-do-update-expr": lambda: Qd.into(t).insert(1, 2).on_conflict("id").do_update("ttl", t.ttl + iv),
+                    "where-between": lambda: Qd.from_(t).select(t.a).where(t.ts.between(iv, t.b)),
+                    "case-then": lambda: Qd.from_(t).select(reg["Case"]().when(t.a > 1, iv).else_(t.b)),
+                    "orderby-expr": lambda: Qd.from_(t).select(t.a).orderby(t.ts - iv),
+                }
+                for pos_, mk in stmts.items():
+                    try:
+                        s3 = mk().get_sql()
+                    except Exception as e:
+                        mon.violation("embedded:raises:%s:%s" % (pos_, type(e).__name__), "an Interval as %s raised %r" % (pos_, e), {"dialect": dname})
+                        continue
+                    mon.count("statement_embeddings")
+                    if bare not in s3:
+                        mon.violation("embedded-literal-differs:%s:%s" % (pos_, dname), "the literal %r does not appear in %r" % (bare, s3[:240]),
+                                      {"dialect": dname, "where": pos_, "sql": s3})
         for where, sql in outs:
             mon.count("renders")
             got = read_literal(sql, dname in FORM_A)
@@ -210,7 +233,7 @@ def run_case(case, mon):
 
 
 def FLOORS(tier):
-    return {"renders": 100000, "fields_compared": 100000}
+    return {"renders": 100000, "fields_compared": 100000, "statement_embeddings": 20000}
 
 
 def coverage_extra(m, tier):
